@@ -145,6 +145,14 @@ type FuncSpec struct {
 	// handler; `return func(w, r) {..}` is the handler itself; `f(a)(w, r)` passes a's arguments before the request's
 	HandlerEnd bool
 	OkWrites   map[string]string // HandlerEnd: `if err := f(w, ..); err != nil { WRITE }` at the end of a handler, f writes the response itself on success: f -> constructor applied to what f wrote
+	// ---- (translate_c19.go) request contexts and closures as values; all default-off
+	// KeepCtx: context arguments (`ctx`, `r.Context()`) are NOT dropped and `r.WithContext(c)` is a real update of the request model
+	// (the issuer travels in the context: pkg/op/context.go). Closures: a `func(..) .. {..}` literal in value position becomes a Lean
+	// lambda (result kind inferred from its signature); assignments to captured variables stay untranslatable ("declared outside the function").
+	// Ignore: callee texts whose statement-level calls carry no decision in this function (`log.Printf`).
+	KeepCtx  bool
+	Closures bool
+	Ignore   []string
 }
 
 // StructLit: `&pkg.T{K: V, ...}` becomes `({ K := V, ... } : Lean)`, restricted to the fields in Keep.
@@ -695,7 +703,14 @@ func (t *tr) expr(e ast.Expr) string {
 			return "[" + strings.Join(vs, ", ") + "]"
 		}
 		return t.bad("composite literal "+tn, x)
+	case *ast.FuncLit:
+		if t.spec.Closures {
+			return t.closure(x) // translate_c19.go
+		}
 	case *ast.IndexExpr:
+		if r, ok := t.spec.Rename[exprString(x.X)+"[]"]; ok {
+			return "(" + r + " " + t.expr(x.Index) + ")" // m[k] on a model value whose lookup the spec names
+		}
 		if _, isCall := x.X.(*ast.CallExpr); !isCall {
 			// generic instantiation f[T] is handled at the call; slice index a[i]:
 			return "(Go.index " + t.expr(x.X) + " " + t.expr(x.Index) + ")"
@@ -781,7 +796,7 @@ func (t *tr) argsOf(callee string, as []ast.Expr) string {
 	var out []string
 	op, hasOp := t.lookupOutParam(callee)
 	for i, a := range as {
-		if isCtxArg(a) || t.dropped(a) {
+		if (isCtxArg(a) && !t.spec.KeepCtx) || t.dropped(a) {
 			continue
 		}
 		if hasOp && !op.Keep && i == op.Index {
@@ -809,6 +824,9 @@ func (t *tr) call(c *ast.CallExpr) string {
 	}
 	if identityConversions[full] && len(c.Args) == 1 {
 		return t.expr(c.Args[0])
+	}
+	if t.spec.Closures && full == "http.HandlerFunc" && len(c.Args) == 1 {
+		return t.expr(c.Args[0]) // conversion of a function value to the handler type
 	}
 	if full == "append" && len(c.Args) >= 2 && !c.Ellipsis.IsValid() {
 		// functional reading of append is only sound when the slice owns its backing array
@@ -920,7 +938,7 @@ func (t *tr) call(c *ast.CallExpr) string {
 		if identityMethods[m] && len(c.Args) == 0 {
 			return recv
 		}
-		if m == "WithContext" && len(c.Args) == 1 {
+		if m == "WithContext" && len(c.Args) == 1 && !t.spec.KeepCtx {
 			return recv // r.WithContext(ctx): contexts are not modelled
 		}
 		if lf, ok := methodMap[m]; ok {
@@ -1453,7 +1471,7 @@ func (t *tr) block(stmts []ast.Stmt, k cont) string {
 		return t.bad("defer", x)
 	case *ast.ExprStmt:
 		if c, ok := x.X.(*ast.CallExpr); ok {
-			if ignorableCall(c) {
+			if ignorableCall(c) || t.specIgnores(c) {
 				return rest()
 			}
 			// f(v, ...) where f writes through its pointer argument v:  let v := f v ...
@@ -1779,7 +1797,7 @@ func (t *tr) block(stmts []ast.Stmt, k cont) string {
 				}
 				return rest() // pure allocation of an out-parameter target
 			}
-			if c, ok := x.Rhs[0].(*ast.CallExpr); ok && strings.HasSuffix(exprString(c.Fun), ".WithContext") {
+			if c, ok := x.Rhs[0].(*ast.CallExpr); ok && strings.HasSuffix(exprString(c.Fun), ".WithContext") && !t.spec.KeepCtx {
 				return rest() // r = r.WithContext(ctx): bookkeeping
 			}
 			// field update of a model structure: x.F = e  ->  let x := { x with F := e }
@@ -1803,7 +1821,7 @@ func (t *tr) block(stmts []ast.Stmt, k cont) string {
 				}
 				return t.bad("make", x)
 			}
-			if c, ok := x.Rhs[0].(*ast.CallExpr); ok && ignorableCall(c) {
+			if c, ok := x.Rhs[0].(*ast.CallExpr); ok && ignorableCall(c) && !(t.spec.KeepCtx && strings.HasSuffix(exprString(c.Fun), ".WithContext")) {
 				return rest() // bookkeeping (logger = logger.With(..), r = r.WithContext(ctx))
 			}
 			if _, ok := x.Lhs[0].(*ast.SelectorExpr); ok {
@@ -1949,6 +1967,9 @@ func (t *tr) block(stmts []ast.Stmt, k cont) string {
 						return rest()
 					}
 				}
+			}
+			if out, ok := t.ifCommaOk(x, cont); ok {
+				return out // translate_c19.go
 			}
 			return t.bad("if with init", x)
 		}
